@@ -38,6 +38,8 @@ def c_mcirc(ctx, args):
                 seen_m += 1
                 if seen_m == 1 and life == 'after_first':
                     c.compile()
+            if life == 'each':           # compile, extend, compile again, ... (a gate taken later may slide into a layer that was compiled before)
+                c.compile()
         if life in ('end', 'both'):
             c.compile()
     s = NP.STATE(t)
@@ -373,7 +375,7 @@ def run(ctx):
         seed = rng.randrange(10 ** 6)
         do(ctx, 'mcirc', [N, prog, t, seed], nontrivial=('m', it), sample=(it < 1))
         if it % 2 == 0:
-            do(ctx, 'mcirc', [N, prog, t, seed, rng.choice(['end', 'early', 'both', 'after_first'])], nontrivial=('ml', it))
+            do(ctx, 'mcirc', [N, prog, t, seed, rng.choice(['end', 'early', 'both', 'after_first', 'each', 'each'])], nontrivial=('ml', it))
         do(ctx, 'order', [N, prog])
         do(ctx, 'layer', [N, rng.sample(range(N), rng.randint(1, N)), gen.rtableau(rng, ctx.model, N, r=0 if rng.random() < 0.6 else None), rng.randrange(10 ** 6)], nontrivial=('ly', it))
         tp = gen.rtableau(rng, ctx.model, N, r=0)
